@@ -510,6 +510,7 @@ func rulesC10(c *Ctx) {
 		}
 		c.Pin("peer-I/O call sites with a context", n, 10)
 	})
+	c.Import("R-C10-8", "with a shared in-memory event store, a message stored for one session is never filed under another: lists are reached only through the table keyed by session id, then stream id (no remembered last stream; every session's standalone stream has the same id)", "C20", "R-C20-8", nil)
 }
 
 // ctxRoot follows a context expression through context.With* wrappers and single-assignment locals
